@@ -146,6 +146,29 @@ func HealthySessions(rng *rand.Rand, thorough bool) []Session {
 	out = append(out, hs("close-race-2", 3,
 		[]DOp{{Op: "exec", R: "r1", To: true}, {Op: "exec", R: "r2"}, {Op: "aclose"}, {Op: "joinall"}, {Op: "jclose"}},
 		[]SOp{{Op: "expectwsd", R: "r1"}, {Op: "doneif", R: "r1", X: 1}, {Op: "expectwsd", R: "r2"}, {Op: "doneif", R: "r2", X: 2}, {Op: "expectdone"}}))
+	// Signals racing with Close, on signalsToStep channels the caller leaves OPEN (supported: the
+	// library's own "Unclosed" test; Close ends the signal writers through the context). The director
+	// hands a signal to the writer goroutine (the unbuffered send returns when the writer has taken
+	// it) and calls Close at once: depending on the schedule the signal is written before client-done,
+	// or the write loses the race - the server has closed its input - and FAILS on a healthy
+	// connection (model: `wSend w false` once the server got client-done); the writer must then end.
+	out = append(out, hs("sigclose-inflight", 3,
+		[]DOp{{Op: "exec", R: "r1", To: true, From: true}, {Op: "await", N: 2}, {Op: "sig", R: "r1", SR: "r1"}, {Op: "aclose"}, {Op: "join", R: "r1"}, {Op: "jclose"}},
+		[]SOp{{Op: "expectws", R: "r1"}, {Op: "expectdone"}, {Op: "done", R: "r1", X: 1}}))
+	out = append(out, hs("sigclose-answered", 3,
+		[]DOp{{Op: "exec", R: "r1", To: true}, {Op: "join", R: "r1"}, {Op: "sig", R: "r1", SR: "r1"}, {Op: "aclose"}, {Op: "jclose"}},
+		[]SOp{{Op: "expectws", R: "r1"}, {Op: "done", R: "r1", X: 1}, {Op: "expectdone"}}))
+	out = append(out, hs("sigclose-2-runs", 3,
+		[]DOp{{Op: "exec", R: "r1", To: true}, {Op: "exec", R: "r2", To: true, From: true}, {Op: "await", N: 3}, {Op: "sig", R: "r1", SR: "r1"}, {Op: "sig", R: "r2", SR: "r2"},
+			{Op: "aclose"}, {Op: "joinall"}, {Op: "jclose"}},
+		[]SOp{{Op: "expectws", R: "r1"}, {Op: "expectws", R: "r2"}, {Op: "sig", R: "r2"}, {Op: "done", R: "r2", X: 2}, {Op: "expectdone"}, {Op: "done", R: "r1", X: 1}}))
+	out = append(out, hs("sigclose-2-signals", 3,
+		[]DOp{{Op: "exec", R: "r1", To: true}, {Op: "exec", R: "r2"}, {Op: "await", N: 3}, {Op: "sig", R: "r1", SR: "r1"}, {Op: "sig", R: "r1", SR: "r1"},
+			{Op: "aclose"}, {Op: "joinall"}, {Op: "jclose"}},
+		[]SOp{{Op: "expectws", R: "r1"}, {Op: "expectws", R: "r2"}, {Op: "expectdone"}, {Op: "done", R: "r1", X: 1}, {Op: "done", R: "r2", X: 2}}))
+	out = append(out, hs("sigclose-queued", 3,
+		[]DOp{{Op: "exec", R: "r1", To: true, Pre: 2}, {Op: "awaitws", R: "r1"}, {Op: "aclose"}, {Op: "join", R: "r1"}, {Op: "jclose"}},
+		[]SOp{{Op: "expectws", R: "r1"}, {Op: "expectdone"}, {Op: "done", R: "r1", X: 1}}))
 	// duplicate and blank run IDs
 	out = append(out, hs("duplicate-run", 3,
 		[]DOp{{Op: "exec", R: "r1"}, {Op: "await", N: 2}, {Op: "exec", R: "r1", To: true}, {Op: "join", R: "r1"}, {Op: "mark", N: 1}, {Op: "joinall"}, {Op: "close"}},
